@@ -17,15 +17,18 @@ if [ $base -ne 0 ] || [ $withc -eq 0 ] || ! echo "$tests" | grep -q "686 passed"
 OUT=/verif/seeded/$SID
 mkdir -p "$OUT"
 cp "$D/change_$I.diff" "$OUT/patch.diff"; cp "$D/demo_$I.py" "$OUT/demo.py"; cp "$D/note_$I.txt" "$OUT/note.txt"
-cd /repo && git apply "$OUT/patch.diff" || { echo "does not apply to /repo"; exit 2; }
+# the checks run against the worktree with the change applied (ARMMC_REPO), so that /repo stays untouched and
+# background runs against /repo are not disturbed
+cd "$WT" && git apply "$OUT/patch.diff" || { echo "does not apply"; exit 2; }
 results=""
 for c in "$@"; do
-  out=$(cd /verif && ./check $c 2>&1); rc=$?
+  out=$(cd /verif && ARMMC_REPO="$WT" ./check $c 2>&1); rc=$?
   nv=$(echo "$out" | grep -c "^VIOLATION")
   results="$results $c:rc=$rc:violations=$nv"
   echo "$out" | grep -A2 "^VIOLATION" | head -6
 done
-git -C /repo checkout -q -- .
+git -C "$WT" checkout -q -- .
+(cd /verif && git checkout -q -- evidence 2>/dev/null)
 echo "RESULT $SID:$results"
 python3 - "$OUT" "$SID" "$PROP" "$base" "$withc" "$tests" "$results" <<'EOF'
 import json, sys
